@@ -38,7 +38,7 @@ ADDRS = {"A": [b"\x0a\x00\x00\x05", b"\x0a\x00\x00\x06"], "AAAA": [b"\xfe\x80" +
 def floors(tier):
     q = tier == "quick"
     return {"c18.deadline": 8000 if q else 1000000, "c18.model": 8000 if q else 1000000, "c18.hook_reads": 15000 if q else 2000000, "c18.transmissions": 8000 if q else 1000000,
-            "c18.views": 8000 if q else 1000000, "c18.completeness": 1500 if q else 150000, "c18.questions.queries": 5000 if q else 600000}
+            "c18.views": 8000 if q else 1000000, "c18.completeness": 1500 if q else 150000, "c18.blocking": 60 if q else 400, "c18.questions.queries": 5000 if q else 600000}
 
 
 def plan(tier, seed):
@@ -399,15 +399,112 @@ def analyse(res: Result, sim: simnet.Sim, sc: Dict[str, Any], out: Dict[str, Any
             "ok" if result else "fail", "cachepath" if sufficient else "net", "q=%d" % min(len(sent), 4))
 
 
+# ---------------------------------------------------------------------------------------
+# blocking API (real time): Zeroconf.get_service_info / ServiceInfo.request from a non-loop thread
+
+
+def run_blocking(res: Result, seed: int, long_wait: bool) -> None:
+    """The blocking lookup hands the work to the loop thread and waits for it.  Per lookup a fresh instance name is used; its
+    SRV/TXT/A records are delivered (in the loop thread) before the call, in a race with the call, some milliseconds into it, or
+    never.  Judged: no exception in the calling thread; back by the timeout (+ a generous real-time allowance); success whenever
+    the records were processed at least 150 ms before the deadline; cache-only lookups transmit nothing."""
+    import threading
+    import time
+    from ..threadrun import BlockingInstance
+    rng = random.Random(seed)
+    res.evaluations += 1
+    desc: Dict[str, Any] = {"blocking": True, "long_wait": long_wait, "lookups": []}
+
+    def viol(kind: str, detail: str, **sig: Any) -> None:
+        res.violation("c18.blocking", kind, detail, dict(sig, family="blocking"), {"seed": seed, "blocking": True, "long_wait": long_wait, "scenario": desc})
+
+    SLACK_OBS, SLACK_VIOL = 400.0, 3000.0
+    try:
+        with BlockingInstance() as bi:
+            zc = bi.zc
+            n = 3 if long_wait else 40
+            for i in range(n):
+                name = "blk%d-%d.%s" % (seed % 1000, i, T)
+                hostn = "blk-host%d.local." % i
+                recs = [(("SRV", name, (0, 0, 8000 + i, hostn)), 120, True), (("TXT", name, (b"\x04i=%02d" % (i % 100),)), 4500, True),
+                        (("A", hostn, (bytes([10, 1, i % 250, 7]),)), 120, True)]
+                rng.shuffle(recs)
+                data = R.build_response(recs, id_=i)
+                mode = rng.choice(["before", "racing", "racing", "racing", "after", "never"])
+                timeout = rng.choice([300, 400, 600])
+                if long_wait:
+                    mode, timeout = ("never", 10000) if i == 0 else ("racing", 400)
+                delay = 0.0
+                if mode == "before":
+                    bi.inject(data)
+                    bi.settle(5)
+                elif mode == "racing":
+                    bi.inject(data)
+                    spin = time.perf_counter() + rng.choice([0.0, 0.00002, 0.00005, 0.0001, 0.0002, 0.0005, 0.001])
+                    while time.perf_counter() < spin:
+                        pass
+                elif mode == "after":
+                    delay = rng.choice([5.0, 30.0, 100.0])
+                    threading.Timer(delay / 1000.0, bi.inject, args=(data,)).start()
+                mark = len(bi.net.trace)
+                t0 = bi.now_ms()
+                raised: Optional[BaseException] = None
+                info = None
+                try:
+                    info = zc.get_service_info(T, name, timeout)
+                except BaseException as e:  # noqa
+                    raised = e
+                t1 = bi.now_ms()
+                took = t1 - t0
+                res.mon("c18.blocking")
+                desc["lookups"].append({"i": i, "mode": mode, "timeout": timeout, "took": round(took, 1), "ok": info is not None})
+                if raised is not None:
+                    viol("blocking_lookup_raised", "get_service_info(timeout=%d) raised %r after %.0f ms (records: %s)" % (timeout, raised, took, mode), exc_type=type(raised).__name__, mode=mode)
+                    continue
+                if took > timeout + SLACK_VIOL:
+                    viol("returned_after_deadline", "get_service_info(timeout=%d) returned after %.0f ms (records: %s)" % (timeout, took, mode), mode=mode)
+                elif took > timeout + SLACK_OBS:
+                    res.obs("blocking_lookup_more_than_400ms_over_its_timeout_machine_load")
+                processed = [d["t"] for d in bi.net.deliveries if d["data"] == data]
+                if mode != "never" and processed and processed[0] <= t0 + timeout - 150.0:
+                    if info is None:
+                        viol("lookup_failed_although_records_delivered", "get_service_info(timeout=%d) returned None after %.0f ms although the SRV/TXT/A records were "
+                             "processed %.1f ms %s the call" % (timeout, took, abs(processed[0] - t0), "before" if processed[0] < t0 else "after"), mode=mode)
+                    else:
+                        want = (hostn, 8000 + i, b"\x04i=%02d" % (i % 100), [bytes([10, 1, i % 250, 7])])
+                        got = (info.server, info.port, info.text, list(info.addresses))
+                        if got != want:
+                            viol("blocking_lookup_fields", "get_service_info returned %r, records say %r" % (got, want), mode=mode)
+                if mode == "never" and info is not None:
+                    viol("blocking_lookup_fields", "get_service_info returned an info for a name nobody answered for", mode=mode)
+                if mode == "before" and len(bi.net.trace) != mark:
+                    viol("transmitted_although_cache_sufficed", "blocking lookup with everything cached put %d datagram(s) on the wire" % (len(bi.net.trace) - mark), mode=mode)
+                res.cls("blocking", mode, "timeout=%d" % timeout, "ok" if info is not None else "none")
+            bad = [e for e in bi.net.escapes if "was destroyed but it is pending" not in str(e.get("message"))]
+            if bad:
+                viol("loop_exception", "loop exception handler got %r" % (bad[0],))
+    except Exception as e:
+        viol("exception", "exception in the blocking-lookup run: %r\n%s" % (e, tb()), exc_type=type(e).__name__)
+
+
 def run_shard(spec):
     res = Result()
     rng = rng_for("c18", spec["seed"], spec["shard"])
     for _ in range(spec["per"]):
         run_scenario(res, rng.randrange(1 << 30))
+    # real-time runs of the blocking API: two shards with short lookups, one shard with a 10 s lookup (thorough: more)
+    quick = spec["tier"] == "quick"
+    if spec["shard"] in ((1, 2) if quick else range(1, 13)):
+        run_blocking(res, rng.randrange(1 << 30), False)
+    if spec["shard"] in ((0,) if quick else (0, 13)):
+        run_blocking(res, rng.randrange(1 << 30), True)
     return res
 
 
 def replay(blob):
     res = Result()
+    if blob.get("blocking"):
+        run_blocking(res, blob["seed"], blob.get("long_wait", False))
+        return res
     run_scenario(res, blob["seed"])
     return res
